@@ -218,7 +218,7 @@ func main() {
 						}
 					}
 				}
-				emit(map[string]any{"ev": "search", "api": "DescriptorListSearch", "h": hu.ID, "hl": hl, "list": append([]int(nil), pl...), "res": res})
+				emit(map[string]any{"ev": "search", "api": "DescriptorListSearch", "h": hu.ID, "hl": hl, "list": append([]int(nil), pl...), "res": res, "fpass": 1})
 				line++
 				// the same list through an OCI index and manifest.GetPlatformDesc
 				m, err := manifest.New(manifest.WithOrig(v1.Index{Versioned: v1.IndexSchemaVersion, MediaType: mediatype.OCI1ManifestList, Manifests: dl}))
@@ -235,7 +235,95 @@ func main() {
 						}
 					}
 				}
-				emit(map[string]any{"ev": "search", "api": "GetPlatformDesc", "h": hu.ID, "hl": hl, "list": append([]int(nil), pl...), "res": res2})
+				emit(map[string]any{"ev": "search", "api": "GetPlatformDesc", "h": hu.ID, "hl": hl, "list": append([]int(nil), pl...), "res": res2, "fpass": 1})
+				line++
+			})
+			// 4. the same list searched with a filter option next to the platform (artifact type, annotation,
+			// sort annotation): the statement then speaks about the entries that pass the filter, whatever
+			// order the filter leaves them in
+			fk := []string{"atype", "annot", "sort", "sortdesc"}[rng.Intn(4)]
+			pass := make([]bool, ln)
+			ord := make([]string, ln)
+			for i := range pass {
+				pass[i] = rng.Intn(10) < 7
+				if rng.Intn(4) != 0 {
+					ord[i] = fmt.Sprint(rng.Intn(3))
+				}
+			}
+			idx := make([]int, ln)
+			for i := range idx {
+				idx[i] = i
+			}
+			seenF := map[string]bool{}
+			permute(idx, func(pi []int) {
+				key := ""
+				for _, j := range pi {
+					key += fmt.Sprintf("%d/%v/%s,", lst[j], pass[j], ord[j])
+				}
+				if seenF[key] {
+					return
+				}
+				seenF[key] = true
+				dl := make([]descriptor.Descriptor, len(pi))
+				eff := make([]int, len(pi))
+				okf := make([]bool, len(pi))
+				for i, j := range pi {
+					t := lst[j]
+					dl[i] = descriptor.Descriptor{MediaType: mediatype.OCI1Manifest, Size: int64(100 + i),
+						Digest: digest.FromString(fmt.Sprintf("fentry-%d-%d", j, t))}
+					if t != 0 {
+						tp := pick(rng, classes[keys[t-1]]).plat()
+						dl[i].Platform = &tp
+					}
+					okf[i] = true
+					switch fk {
+					case "atype":
+						dl[i].ArtifactType = "application/vnd.other"
+						if pass[j] {
+							dl[i].ArtifactType = "application/vnd.wanted"
+						}
+						okf[i] = pass[j]
+					case "annot":
+						if pass[j] {
+							dl[i].Annotations = map[string]string{"want": "yes", "x": "y"}
+						} else if ord[j] != "" {
+							dl[i].Annotations = map[string]string{"want": "no"}
+						}
+						okf[i] = pass[j]
+					default:
+						if ord[j] != "" {
+							dl[i].Annotations = map[string]string{"ord": ord[j]}
+						}
+					}
+					if okf[i] {
+						eff[i] = t
+					}
+				}
+				hh := h
+				opt := descriptor.MatchOpt{Platform: &hh}
+				switch fk {
+				case "atype":
+					opt.ArtifactType = "application/vnd.wanted"
+				case "annot":
+					opt.Annotations = map[string]string{"want": "yes"}
+				case "sort":
+					opt.SortAnnotation = "ord"
+				case "sortdesc":
+					opt.SortAnnotation, opt.SortDesc = "ord", true
+				}
+				res, fpass := 0, 1
+				d, err := descriptor.DescriptorListSearch(dl, opt)
+				if err == nil {
+					for i := range dl {
+						if dl[i].Digest == d.Digest {
+							res = i + 1
+							if !okf[i] {
+								fpass = 0
+							}
+						}
+					}
+				}
+				emit(map[string]any{"ev": "search", "api": "DescriptorListSearch+" + fk, "h": hu.ID, "hl": hl, "list": eff, "res": res, "fpass": fpass})
 				line++
 			})
 		}
